@@ -186,6 +186,8 @@ structure GoJob where
 inductive GoOpenMode where
   | trunc
   | append
+  | rdcreate   -- `O_RDONLY|O_CREATE`: make sure the file exists
+  | rdonly     -- `os.Open`
   deriving Repr, DecidableEq
 
 /-- an operation of translated code on the file system; an open file is named by the path it was opened on -/
@@ -238,6 +240,11 @@ structure Ext where
   /-- `config.Server.Schedule` and `config.Server.Continuous` -/
   schedule : List GoJob := []
   continuous : List GoJob := []
+  /-- `knownhosts.Normalize(address)` -/
+  normalizeAddr : GoString → GoString := fun a => a
+  /-- `bufio.NewScanner(file)`: the lines `Scan` / `Text` deliver for the file opened on this path (scanning stops silently
+      at a line the scanner's buffer cannot hold — the caller of a theorem says what the lines are) -/
+  scanLines : GoString → List GoString := fun _ => []
   /-- `config.Server.MaxConnections` -/
   maxConnections : Int := 0
   /-- `readFile.totalLineCount()` where the translation does not follow the statistics -/
